@@ -13,6 +13,7 @@ import OrasModel.Driver.Cd
 import OrasModel.Driver.Au
 import OrasModel.Driver.Sc
 import OrasModel.Driver.Rf
+import OrasModel.Driver.Pg
 open Oras.Driver
 
 structure DState where
@@ -54,6 +55,9 @@ def handle (st : DState) (line : String) : DState × String :=
       | some (m, s) => (st, s!"m={m} s={s}")
       | none => (st, "bad-op"))
   | "rf" :: rest => (match Rf.step rest with
+      | some (m, s) => (st, s!"m={m} s={s}")
+      | none => (st, "bad-op"))
+  | "pg" :: rest => (match Pg.step rest with
       | some (m, s) => (st, s!"m={m} s={s}")
       | none => (st, "bad-op"))
   | "ref" :: rest => (match R.step rest with
